@@ -2914,7 +2914,8 @@ func doComposite(n *node, hasType bool, keyed bool) {
 		switch {
 		case d.Kind() == reflect.Ptr:
 			d.Set(a.Addr())
-		case destInterface:
+		case destInterface && d.Type() != rt:
+			// The literal is built directly in the destination, of interface type.
 			if len(destType(n).field) > 0 {
 				d.Set(reflect.ValueOf(valueInterface{n, a}))
 				break
